@@ -2,6 +2,7 @@ package e5
 
 import (
 	"context"
+	"errors"
 	"fmt"
 	"sync"
 	"sync/atomic"
@@ -169,6 +170,24 @@ func (f *faultHandler) AppRequest(ctx context.Context, from ids.NodeID, deadline
 	return out, nil
 }
 
+// flakyDB fails one chosen Put with an I/O error (a transient local disk fault): failIn counts down
+// on every Put while armed (> 0); the Put that takes it to zero fails.
+type flakyDB struct {
+	database.Database
+	failIn atomic.Int64
+	fired  atomic.Int64
+}
+
+var errInjectedDisk = errors.New("injected disk write error")
+
+func (f *flakyDB) Put(k, v []byte) error {
+	if f.failIn.Load() > 0 && f.failIn.Add(-1) == 0 {
+		f.fired.Add(1)
+		return errInjectedDisk
+	}
+	return f.Database.Put(k, v)
+}
+
 type deafHandler struct{}
 
 func (deafHandler) AppGossip(context.Context, ids.NodeID, []byte) {}
@@ -177,6 +196,7 @@ func (deafHandler) AppRequest(context.Context, ids.NodeID, time.Time, []byte) ([
 }
 
 type dNode struct {
+	DB      *flakyDB
 	ID      ids.NodeID
 	Storage *dsmr.ChunkStorage[dsmrtest.Tx]
 	Node    *dsmr.Node[dsmrtest.Tx]
@@ -251,10 +271,13 @@ func newNet(ctx context.Context, t *testing.T, cfg netCfg) ([]*dNode, error) {
 		gossip  p2p.Handler
 	}
 	ps := make([]parts, cfg.N)
+	dbs := make([]*flakyDB, cfg.N)
 	for i := range ps {
 		cs := newChainState(vals, cfg.QuorumNum, cfg.QuorumDen)
 		verifier := dsmr.NewChunkVerifier[dsmrtest.Tx](cs, rf)
-		st, err := dsmr.NewChunkStorage[dsmrtest.Tx](verifier, memdb.New(), rf)
+		fdb := &flakyDB{Database: memdb.New()}
+		dbs[i] = fdb
+		st, err := dsmr.NewChunkStorage[dsmrtest.Tx](verifier, fdb, rf)
 		if err != nil {
 			return nil, err
 		}
@@ -269,7 +292,7 @@ func newNet(ctx context.Context, t *testing.T, cfg netCfg) ([]*dNode, error) {
 	}
 	nodes := make([]*dNode, cfg.N)
 	for i := range nodes {
-		dn := &dNode{ID: vals[i].NodeID, Storage: ps[i].storage, SigVerifier: ps[i].sigv, Signer: warp.NewSigner(sks[i], networkID, chainID), PK: vals[i].PublicKey, blocks: map[ids.ID]dsmr.Block{cfg.Genesis.GetID(): cfg.Genesis}}
+		dn := &dNode{DB: dbs[i], ID: vals[i].NodeID, Storage: ps[i].storage, SigVerifier: ps[i].sigv, Signer: warp.NewSigner(sks[i], networkID, chainID), PK: vals[i].PublicKey, blocks: map[ids.ID]dsmr.Block{cfg.Genesis.GetID(): cfg.Genesis}}
 		getPeers, sigPeers, gossipPeers := map[ids.NodeID]p2p.Handler{}, map[ids.NodeID]p2p.Handler{}, map[ids.NodeID]p2p.Handler{}
 		for j := range nodes {
 			if i == j {
